@@ -126,6 +126,15 @@ CLAIMED = {
             "display. Does not decide non-interference for values that enter the context as plain data.",
             "intraprocedural API-aware taint analysis over go/ssa, guard (edge-dominance) checks",
             "DESIGN.md §4 C19"),
+    "C18": ("Structural necessary conditions of the documented language fallback: getLanguages appends contact-allowed language, "
+            "environment default (set and different) and flow language in that order with the right guards; "
+            "sessionEnvironment.DefaultLanguage honours contact presence, language set and allowed list; getText walks forward, stops "
+            "at the flow language, returns only non-empty translations with their own language, item and key, falls back to native; "
+            "localization keys agree both ways between engine:localized tags (16 fields) and the 12 runtime lookups; evaluateMessage "
+            "uses three independent lookups and the text -> attachments -> quick replies language choice; send_msg locales derive "
+            "from the language actually used. Does not enumerate the outcomes of all configurations.",
+            "SSA shape/provenance checks of the fallback functions, struct-tag vs call-site table agreement",
+            "DESIGN.md §4 C18"),
 }
 
 NOT_APPLICABLE = {}
